@@ -689,11 +689,9 @@ fn partial_liquidation(
         .checked_div(config.decimals)
         .unwrap();
 
-    let partial_asset_limit = quote_asset_limit
-        .checked_mul(config.partial_liquidation_ratio)
-        .unwrap()
-        .checked_div(config.decimals)
-        .unwrap();
+    // (full-width intermediate: a limit near the type's maximum must not overflow when scaled down)
+    let partial_asset_limit =
+        quote_asset_limit.multiply_ratio(config.partial_liquidation_ratio, config.decimals);
 
     let current_notional = query_vamm_output_amount(
         &deps.as_ref(),
